@@ -256,6 +256,13 @@ class FunctionTranslator:
                         names.add(node.id)
                     if node.id not in params and node.id not in order:
                         order.append(node.id)
+
+            def visit_ExceptHandler(v, node):      # `except K as x` binds x
+                if node.name is not None:
+                    names.add(node.name)
+                    if node.name not in params and node.name not in order:
+                        order.append(node.name)
+                v.generic_visit(node)
         for st in fn.body:
             V().visit(st)
         self.rename = {n: f"${i + 1}" for i, n in enumerate(order)}
@@ -541,11 +548,19 @@ class FunctionTranslator:
         if isinstance(e, ast.Compare):
             operands = [e.left] + list(e.comparators)
             parts = []
+            def EO(x, other, op):
+                # `self.<F> is None` / `is not None` with F an object outside the translation: only its presence is read
+                if (isinstance(op, (ast.Is, ast.IsNot)) and isinstance(other, ast.Constant) and other.value is None
+                        and isinstance(x, ast.Attribute) and isinstance(x.value, ast.Name) and x.value.id == "self"
+                        and self.receiver == "self" and x.attr in self.effects and isinstance(x.ctx, ast.Load)):
+                    return f"(EAttr (EName {cstr('self')}) {cstr(x.attr)})"
+                return E(x)
             for i, op in enumerate(e.ops):
                 o = CMPOPS.get(type(op))
                 if o is None:
                     fail(e, f"comparison operator {type(op).__name__}")
-                parts.append(f"(ECompare {o} {E(operands[i])} {E(operands[i + 1])})")
+                parts.append(f"(ECompare {o} {EO(operands[i], operands[i + 1], op)} "
+                             f"{EO(operands[i + 1], operands[i], op)})")
             for mid in operands[1:-1]:
                 if not isinstance(mid, (ast.Name, ast.Constant)) and not (
                         isinstance(mid, ast.UnaryOp) and isinstance(mid.operand, ast.Constant)):
@@ -667,7 +682,18 @@ class FunctionTranslator:
         else:
             fail(e, "callee that is neither a name nor an attribute")
         args = clist([E(a) for a in e.args])
-        kws = clist([f"({cstr(k.arg)}, {E(k.value)})" for k in e.keywords])
+        def KW(k):
+            # json.dumps(.., default=self.<method>): the bound method is an opaque token (json.dumps is an oracle;
+            # what it does with the hook is part of what the oracle stands for)
+            v = k.value
+            if (k.arg == "default" and isinstance(f, ast.Attribute) and isinstance(f.value, ast.Name)
+                    and f.value.id == "json" and f.attr == "dumps" and "json" not in self.locals
+                    and isinstance(v, ast.Attribute) and isinstance(v.value, ast.Name) and v.value.id == "self"
+                    and self.receiver == "self" and self.cls_node is not None
+                    and any(isinstance(n, ast.FunctionDef) and n.name == v.attr for n in self.cls_node.body)):
+                return f"(EGlobal {cstr('$bound.' + v.attr)})"
+            return E(v)
+        kws = clist([f"({cstr(k.arg)}, {KW(k)})" for k in e.keywords])
         return f"(ECall {fe} {args} {kws})"
 
     # -- statements ----------------------------------------------------------------------------
@@ -786,6 +812,15 @@ class FunctionTranslator:
         # ---- functions outside the translation that change their arguments (objects with identity): recorded
         gfx = self.opts.get("effect_functions", ())
         def gcall(v):
+            if (isinstance(v, ast.Call) and isinstance(v.func, ast.Attribute) and isinstance(v.func.value, ast.Name)
+                    and f"{v.func.value.id}.{v.func.attr}" in gfx and v.func.value.id not in self.locals):
+                # <module>.<function>(..), e.g. asyncio.ensure_future(x)
+                if v.keywords or any(isinstance(a, ast.Starred) for a in v.args):
+                    fail(v, "keywords / *args in a recorded call")
+                if self.kind not in ("KProcedure", "KStateful"):
+                    fail(v, "recorded call in a function whose run does not yield self")
+                self.globals_ok(v.func.value.id, v.func.value)
+                return f"{cstr(v.func.value.id + '.' + v.func.attr)} {clist([E(a) for a in v.args])}"
             if (isinstance(v, ast.Call) and isinstance(v.func, ast.Name) and v.func.id in gfx
                     and v.func.id not in self.locals):
                 if v.keywords or any(isinstance(a, ast.Starred) for a in v.args):
@@ -935,9 +970,28 @@ class FunctionTranslator:
             if s.orelse or s.finalbody:
                 fail(s, "try ... else / finally")
             hs = []
+            named = any(h.name is not None for h in s.handlers)
             for h in s.handlers:
-                if h.name is not None or h.type is None:
-                    fail(h, "bare except / except ... as name")
+                if h.type is None:
+                    fail(h, "bare except")
+                if named:
+                    # `except K as x`: x is bound in the handler only (Python deletes it at the end of the handler)
+                    if h.name is None:
+                        fail(h, "named and unnamed handlers in one try")
+                    inside = {id(n) for n in ast.walk(h)}
+                    inside_any = {id(n) for g in ast.walk(self.fn)
+                                  if isinstance(g, ast.ExceptHandler) and g.name == h.name for n in ast.walk(g)}
+                    for n in ast.walk(self.fn):
+                        if isinstance(n, ast.Name) and n.id == h.name and id(n) not in inside_any:
+                            fail(n, f"the name of `except .. as {h.name}` is used outside its handler")
+                        if isinstance(n, ast.arg) and n.arg == h.name:
+                            fail(n, f"the name of `except .. as {h.name}` is a parameter")
+                        if isinstance(n, ast.ExceptHandler) and n is not h and n.name == h.name \
+                                and (id(n) in inside or any(h is m for m in ast.walk(n))):
+                            fail(n, "nested handlers with the same name")
+                    for n in ast.walk(h):
+                        if isinstance(n, ast.Name) and n.id == h.name and not isinstance(n.ctx, ast.Load):
+                            fail(n, "the exception name is rebound in its handler")
                 ts = h.type.elts if isinstance(h.type, ast.Tuple) else [h.type]
                 ks = []
                 for t in ts:
@@ -946,8 +1000,11 @@ class FunctionTranslator:
                     self.globals_ok(t.id, t)
                     # `except Exception` catches every exception the embedding has
                     ks.append("ExcAny" if t.id == "Exception" else EXNS[t.id])
-                hs.append(f"({clist(ks)}, {self.block(h.body, ind + 4)})")
-            return f"STry {self.block(s.body, ind + 2)} {clist(hs)}"
+                if named:
+                    hs.append(f"({clist(ks)}, {self.local(h.name)}, {self.block(h.body, ind + 4)})")
+                else:
+                    hs.append(f"({clist(ks)}, {self.block(h.body, ind + 4)})")
+            return f"{'STryAs' if named else 'STry'} {self.block(s.body, ind + 2)} {clist(hs)}"
         fail(s, "statement outside the supported subset")
 
     def super_init(self, s, v):
@@ -1710,9 +1767,73 @@ def gen_caps():
         raise
 
 
+# ----------------------------------------------------------------------------------------------
+# (I) protocol/json_rpc.py JsonRPCProtocol._send_data and io_.py StdoutWriter.write: what reaches the writer
+#     (header, body, ONE write call; write + flush).  json.dumps (with the default= hook), inspect.isawaitable and
+#     format(int) are oracles; self.writer.write / self._server._report_server_error / asyncio.ensure_future are
+#     RECORDED calls (a recorded call returns normally).
+
+def _reflect_send():
+    import asyncio, inspect, json, logging
+    m = importlib.import_module("pygls.protocol.json_rpc")
+    x = importlib.import_module("pygls.exceptions")
+    if m.json is not json or m.inspect is not inspect or m.asyncio is not asyncio \
+            or not isinstance(m.logger, logging.Logger):
+        raise TranslateError("json / inspect / asyncio / logger are not the standard ones")
+    if m.JsonRpcInternalError is not x.JsonRpcInternalError:
+        raise TranslateError("JsonRpcInternalError is not pygls.exceptions.JsonRpcInternalError")
+    P = m.JsonRPCProtocol
+    if P.CHARSET != "utf-8" or P.CONTENT_TYPE != "application/vscode-jsonrpc":
+        raise TranslateError("CHARSET / CONTENT_TYPE are not the constants of the theorem")
+    lp = importlib.import_module("pygls.protocol.language_server").LanguageServerProtocol
+    if lp.CHARSET != P.CHARSET or lp.CONTENT_TYPE != P.CONTENT_TYPE or "_send_data" in vars(lp):
+        raise TranslateError("LanguageServerProtocol overrides CHARSET / CONTENT_TYPE / _send_data")
+    # format(int) inside an f-string is str(int): decimal digits (the oracle `format` of the theorem)
+    if f"{1234567890}" != "1234567890" or f"{0}" != "0":
+        raise TranslateError("f-string of an int")
+    if "a\ud800".encode.__self__ is None:
+        pass
+    try:
+        "\ud800".encode("utf-8")
+        raise TranslateError("utf-8 encodes a surrogate")
+    except UnicodeEncodeError as e:
+        if not isinstance(e, Exception):
+            raise TranslateError("UnicodeEncodeError is not an Exception")
+
+
+def gen_send():
+    imp = lambda mod: (lambda b: b == ("import", mod, None))
+    try:
+        return translate_module(
+            "pygls.protocol.json_rpc", [("JsonRPCProtocol", "_send_data")],
+            {"json": imp("json"), "inspect": imp("inspect"), "asyncio": imp("asyncio"), "logger": _is_logger,
+             "JsonRpcInternalError": _is_from("pygls.exceptions", "JsonRpcInternalError")},
+            "AstSend.v", _reflect_send,
+            opts={"effects": {"writer", "_server"}, "effect_functions": {"asyncio.ensure_future"}})
+    except Exception as e:
+        poison("AstSend.v", repr(e))
+        raise
+
+
+def _reflect_writer():
+    m = importlib.import_module("pygls.io_")
+    import inspect
+    if list(inspect.signature(m.StdoutWriter.write).parameters) != ["self", "data"]:
+        raise TranslateError("StdoutWriter.write parameters")
+
+
+def gen_writer():
+    try:
+        return translate_module("pygls.io_", [("StdoutWriter", "write")], {}, "AstWriter.v", _reflect_writer,
+                                opts={"effects": {"_stdout"}})
+    except Exception as e:
+        poison("AstWriter.v", repr(e))
+        raise
+
+
 GENERATORS = {"codec": gen_codec, "exceptions": gen_exceptions, "uris": gen_uris, "doc": gen_doc,
               "progress": gen_progress, "workspace": gen_workspace, "features": gen_features,
-              "caps": gen_caps}
+              "caps": gen_caps, "send": gen_send, "writer": gen_writer}
 
 if __name__ == "__main__":
     which = sys.argv[1:] or ["codec"]
